@@ -185,6 +185,8 @@ func strftime(t time.Time, cfmt string) string {
 					switch c {
 					case 'w':
 						sc.AppendString(fmt.Sprint(int(t.Weekday())))
+					case 'j':
+						sc.AppendString(fmt.Sprintf("%03d", t.YearDay()))
 					default:
 						sc.AppendChar('%')
 						sc.AppendChar(c)
